@@ -27,7 +27,7 @@ class Ty:
     def text(self):
         k = self.kind
         if k == 'prim':
-            return self.name
+            return getattr(self, 'src', None) or self.name      # src: a notation that the linker expands to this primitive type
         if k == 'ref':
             return self.name
         if k in ('seq', 'set'):
@@ -166,6 +166,24 @@ def shapes(tier):
                     members = [Mem('first', P('BOOLEAN'), 'req' if cont == 'choice' else 'optional'), Mem(nm, ity, opt, '5' if opt == 'default' else None), Mem('last', P('NULL'))]
                     t = Ty(cont, members=members)
                     out.append((f"C02 {cont} member named {nm} [{inner}] {opt}", f"M DEFINITIONS AUTOMATIC TAGS ::= BEGIN R ::= SEQUENCE {{ z BOOLEAN }} T ::= {t.text()} END", {'top': t}))
+    # members written in a notation that the linker EXPANDS (fixed-type class field, selection type): the linker rebuilds the enclosing
+    # constructed types while expanding - kind (SET stays a set), order, optionality and nesting must survive
+    for nl, src in (('class field', 'CLS.&flag'), ('selection', 'b < Ch')):
+        for cont in ('seq', 'set', 'choice'):
+            for inner in ('direct', 'in anon SET', 'in anon SEQUENCE', 'next to anon SET', 'in SET OF SET'):
+                for opt in (('req',) if cont == 'choice' or inner != 'direct' else ('req', 'optional')):
+                    x = Ty('prim', name='BOOLEAN', src=src)
+                    if inner == 'direct':
+                        members = [Mem('first', P('NULL')), Mem('x', x, opt), Mem('last', P('INTEGER'))]
+                    elif inner == 'next to anon SET':
+                        members = [Mem('x', x, opt), Mem('s', Ty('set', members=[Mem('k', P('NULL')), Mem('l', P('BOOLEAN'))])), Mem('last', P('INTEGER'))]
+                    elif inner == 'in SET OF SET':
+                        members = [Mem('first', P('NULL')), Mem('s', Ty('setof', elem=Ty('set', members=[Mem('k', P('NULL')), Mem('x', x)])))]
+                    else:
+                        members = [Mem('first', P('NULL')), Mem('s', Ty('set' if 'SET' in inner else 'seq', members=[Mem('k', P('NULL')), Mem('x', x)])), Mem('last', P('INTEGER'))]
+                    t = Ty(cont, members=members)
+                    out.append((f"C02 {cont} member written as {nl} {inner} {opt}",
+                                f"M DEFINITIONS AUTOMATIC TAGS ::= BEGIN R ::= SEQUENCE {{ z BOOLEAN }} CLS ::= CLASS {{ &flag BOOLEAN, &Type }} Ch ::= CHOICE {{ a NULL, b BOOLEAN }} T ::= {t.text()} END", {'top': t, 'ignore_items': ['Ch']}))
     # COMPONENTS OF copies the ROOT components of the referenced type only (X.680 25.5): nothing of what follows its marker
     for cont, kw in (('seq', 'SEQUENCE'), ('set', 'SET')):
         for adds, label in (("x BOOLEAN, y OCTET STRING OPTIONAL", 'additions'), ("[[ 2: g1 BOOLEAN, g2 NULL OPTIONAL ]]", 'an addition group'), ("", 'no additions')):
